@@ -52,7 +52,7 @@ def run_verus(path, extra=()):
                 diags.append(json.loads(ln))
             except Exception:
                 pass
-    return {"cmd": " ".join(cmd), "exit": p.returncode, "json": out, "diags": diags, "stderr": p.stderr, "wall": wall}
+    return {"cmd": " ".join(cmd), "exit": p.returncode, "json": out, "diags": diags, "stderr": p.stderr, "wall": wall, "path": path}
 
 
 def fn_of_line(g, line):
@@ -85,6 +85,22 @@ KIND_MAP = [
 ]
 
 
+def _call_site(sp, path):
+    """a diagnostic raised inside a macro (`unreachable!()`, `assert!`) carries the macro's own file as span; the place in
+    the unit is the call site recorded under `expansion`"""
+    seen = 0
+    cur = sp
+    while cur and os.path.basename(cur.get("file_name", "")) != os.path.basename(path) and seen < 8:
+        exp = cur.get("expansion")
+        if not exp or not exp.get("span"):
+            return sp
+        nxt = dict(exp["span"])
+        nxt["is_primary"] = sp.get("is_primary")
+        cur = nxt
+        seen += 1
+    return cur or sp
+
+
 def classify(res, g):
     """→ (compile_errors, failures[]) ; failure = dict(label, fn, kind, line, text, message, rendered)"""
     compile_errors = []
@@ -95,7 +111,7 @@ def classify(res, g):
         msg = d.get("message", "")
         if msg.startswith("aborting due to") or msg.startswith("For more information"):
             continue
-        spans = d.get("spans", [])
+        spans = [_call_site(sp, res.get("path", "")) for sp in d.get("spans", [])]
         kind = None
         for pre, k in KIND_MAP:
             if pre in msg:
